@@ -427,6 +427,21 @@ def rule_call_time_params(rule, repo, files=None):
                 if memo and any(_is_param_read(repo, m, x) for b in fn.body for x in ast.walk(b)):
                     rule.violated('memoised:%s.%s' % (m.name, fn.name), site_of(m, fn),
                                   '%s is memoised (%s) and reads the selected-chain parameters: a result computed under one chain is served after SelectParams() picked another' % (fn.name, norm(memo[0])[:40]))
+        # a chain class named directly inside a function (`bitcoin.MainParams.BECH32_HRP`) is one chain for ever: only
+        # SelectParams and the module-level default may name the classes
+        chain_classes = {c.name for c in repo.classes.values() if c.name.endswith('Params') and c.module.name in ('bitcoin', 'bitcoin.core')}
+        for fn in ast.walk(m.tree):
+            if isinstance(fn, (ast.FunctionDef, ast.AsyncFunctionDef)) and fn.name not in ('SelectParams', '_SelectCoreParams'):
+                for x in ast.walk(fn):
+                    if isinstance(x, ast.Attribute) and isinstance(x.ctx, ast.Load) and x.attr.isupper():
+                        base = x.value
+                        bn = base.attr if isinstance(base, ast.Attribute) else (base.id if isinstance(base, ast.Name) else None)
+                        if isinstance(base, ast.Call):
+                            bf = base.func
+                            bn = bf.attr if isinstance(bf, ast.Attribute) else (bf.id if isinstance(bf, ast.Name) else None)
+                        if bn in chain_classes:
+                            rule.violated('hard-wired:%s.%s:%s' % (m.name, fn.name, norm(x)), site_of(m, x),
+                                          '%s reads `%s`: the parameter of one fixed chain, whatever SelectParams() selected' % (fn.name, norm(x)), sure=True)
     rule.ok('reads-in-function-bodies', '', '%d reads of the selected-chain globals, all evaluated at call time' % n_body)
     rule.note('%d call-time reads' % n_body)
     return n_body
